@@ -27,6 +27,8 @@ type Opts struct {
 	Concurrent  int  // up to 1+Concurrent goroutines append concurrently at the start of some runs
 	ConcurrentAlways bool // ... of every run, with more appends each
 	NoHugeNumbers bool // no number literals beyond float64 (the third-party durable-streams test server rejects them)
+	Cancelled  float64 // probability that an operation is called with an already cancelled context (it then either
+	                   // works normally or fails without any effect: a "refused" line)
 }
 
 type want struct {
@@ -42,6 +44,7 @@ type Driver struct {
 	rnd    *rand.Rand
 	lines  [][]byte
 	wants  map[int]want
+	cancelled float64
 	wantTS map[int]time.Time
 	nextID int
 	toks   [][]string // per store: tokens handed out so far (resume points)
@@ -250,9 +253,31 @@ func (d *Driver) fail(op string, s int, err error) {
 	d.emit(map[string]any{"e": "error", "op": op, "s": sname(s), "msg": msg})
 }
 
+// opCtx returns the context of the next operation: now and then one that is already cancelled.
+func (d *Driver) opCtx() (context.Context, bool) {
+	if d.cancelled > 0 && d.rnd.Float64() < d.cancelled {
+		ctx, cancel := context.WithCancel(context.Background())
+		cancel()
+		return ctx, true
+	}
+	return context.Background(), false
+}
+
+// refused records an operation that was called with a cancelled context and returned an error: it must have had no effect.
+func (d *Driver) refused(op string, s int, err error) {
+	if s < len(d.env.Metrics) && d.env.Metrics[s] != nil {
+		d.env.Metrics[s].Take()
+	}
+	if strings.Contains(err.Error(), "panic inside the store") {
+		d.fail(op, s, err)
+		return
+	}
+	d.emit(map[string]any{"e": "refused", "op": op, "s": sname(s)})
+}
+
 // Append appends one generated event to store s.
 func (d *Driver) Append(s int, o Opts) {
-	ctx := context.Background()
+	ctx, canc := d.opCtx()
 	id := d.nextID
 	d.nextID++
 	doc := map[string]any{"id": id, "v": d.richJSON(0)}
@@ -261,6 +286,10 @@ func (d *Driver) Append(s int, o Opts) {
 	d.wants[id] = want{typ: ev.Type, data: data, ts: ev.Timestamp}
 	var off eb.Offset
 	err := guard(func() (e error) { off, e = d.env.Stores[s].Append(ctx, ev); return })
+	if err != nil && canc {
+		d.refused("append", s, err)
+		return
+	}
 	if err != nil {
 		d.fail("append", s, err)
 		return
@@ -286,10 +315,15 @@ func guard(f func() error) (err error) {
 func (d *Driver) Read(s int, from string, limit int) {
 	var evs []*eb.StoredEvent
 	var next eb.Offset
+	ctx, canc := d.opCtx()
 	err := guard(func() (e error) {
-		evs, next, e = d.env.Stores[s].Read(context.Background(), eb.Offset(from), limit)
+		evs, next, e = d.env.Stores[s].Read(ctx, eb.Offset(from), limit)
 		return
 	})
+	if err != nil && canc {
+		d.refused("read", s, err)
+		return
+	}
 	if err != nil {
 		d.fail("read", s, err)
 		return
@@ -310,8 +344,9 @@ func (d *Driver) Stream(s int, from string) {
 		return
 	}
 	var evs []*eb.StoredEvent
+	ctx, canc := d.opCtx()
 	if err := guard(func() error {
-		for e, err := range st.ReadStream(context.Background(), eb.Offset(from)) {
+		for e, err := range st.ReadStream(ctx, eb.Offset(from)) {
 			if err != nil {
 				return err
 			}
@@ -319,6 +354,10 @@ func (d *Driver) Stream(s int, from string) {
 		}
 		return nil
 	}); err != nil {
+		if canc {
+			d.refused("stream", s, err)
+			return
+		}
 		d.fail("stream", s, err)
 		return
 	}
@@ -335,7 +374,15 @@ func (d *Driver) Save(s int, sub, tok string) {
 	if !isSub {
 		return
 	}
-	if err := ss.SaveOffset(context.Background(), sub, eb.Offset(tok)); err != nil {
+	ctx, canc := d.opCtx()
+	if err := ss.SaveOffset(ctx, sub, eb.Offset(tok)); err != nil {
+		if canc {
+			d.refused("save", s, err)
+			if d.rnd.IntN(2) == 0 {
+				d.Save(s, sub, tok) // the caller tries again
+			}
+			return
+		}
 		d.fail("save", s, err)
 		return
 	}
@@ -347,7 +394,12 @@ func (d *Driver) Load(s int, sub string) {
 	if !isSub {
 		return
 	}
-	tok, err := ss.LoadOffset(context.Background(), sub)
+	ctx, canc := d.opCtx()
+	tok, err := ss.LoadOffset(ctx, sub)
+	if err != nil && canc {
+		d.refused("load", s, err)
+		return
+	}
 	if err != nil {
 		d.fail("load", s, err)
 		return
@@ -491,6 +543,8 @@ func (d *Driver) ConcurrentVia(s int, workers, per int, do func(id int) (string,
 // RunRandom performs a random operation sequence.
 func (d *Driver) RunRandom(o Opts) {
 	d.noHuge = o.NoHugeNumbers
+	d.cancelled = o.Cancelled
+	defer func() { d.cancelled = 0 }()
 	if o.Concurrent > 0 && (o.ConcurrentAlways || d.rnd.IntN(3) == 0) {
 		per := 1 + d.rnd.IntN(6)
 		if o.ConcurrentAlways {
